@@ -45,6 +45,27 @@ def korder(t1, t2):
     return True
 
 
+def mutual_clash(t1, t2, cfg):
+    """does TreeResult.mutual_add_removes_to_become_value_changes find a path that is both added and removed
+    (observed on the implementation; mirror of the negation of DeltaReverseDefault.no_clash)"""
+    from deepdiff import DeepDiff
+    from deepdiff.model import TreeResult
+    seen = []
+    orig = TreeResult.mutual_add_removes_to_become_value_changes
+
+    def wrapped(self):
+        a, r = self.get('iterable_item_added'), self.get('iterable_item_removed')
+        if a is not None and r is not None:
+            seen.append(bool({i.path() for i in a} & {i.path() for i in r}))
+        return orig(self)
+    TreeResult.mutual_add_removes_to_become_value_changes = wrapped
+    try:
+        DeepDiff(copy.deepcopy(t1), copy.deepcopy(t2), view="tree", **cfg)
+    finally:
+        TreeResult.mutual_add_removes_to_become_value_changes = orig
+    return any(seen)
+
+
 def hyp_expr8(t1, t2, zip_, thr, conv_tbl, kn):
     """Coq expression (sx) of the observed guards of the C08 theorems on the bidirectional delta of the diff:
     indep_verified d (claimed by C08_indep_guard_of_diff when keys_nonneg t2), ops_ok 0 on every difflib opcode
@@ -52,10 +73,12 @@ def hyp_expr8(t1, t2, zip_, thr, conv_tbl, kn):
     ops = D.coq_ops_table(D.opcode_table(t1, t2))
     return ("(let r := run_diff hatom_deep (tbl_udiff %s) (tbl_ops %s) no_paths no_paths %s %s %s in "
             "let d := to_delta (tbl_conv %s) true false (tbl_ops %s) %s %s (fst r) (snd r) in "
-            "sx_c08hyp5 %s (ops_table_disjointb %s) (forallb sym_okb (fst r)) (keys_nonneg %s) (korderb %s %s))") % (
+            "sx_c08hyp6 %s (ops_table_disjointb %s) (forallb sym_okb (fst r)) (keys_nonneg %s) (korderb %s %s) "
+            "(no_clashb (fst (diff hatom_deep (tbl_udiff %s) (tbl_ops %s) no_paths no_paths %s %s %s [] []))))") % (
         D.coq_udiff_table(D.udiff_table(t1, t2)), ops, D.coq_cfg(zip_, thr, True), V.to_coq(t1), V.to_coq(t2),
         conv_tbl, ops, V.to_coq(t1), V.to_coq(t2),
-        "(indep_verified d)" if kn else "true", ops, V.to_coq(t2), V.to_coq(t1), V.to_coq(t2))
+        "(indep_verified d)" if kn else "true", ops, V.to_coq(t2), V.to_coq(t1), V.to_coq(t2),
+        D.coq_udiff_table(D.udiff_table(t1, t2)), ops, D.coq_cfg(zip_, thr, True), V.to_coq(t1), V.to_coq(t2))
 
 
 def holds8(t1, t2, cfg, always=False):
@@ -243,8 +266,12 @@ def one_pair(ctx, t1, t2, cases, corr=True, hyp_cases=None):
                 if zip_:
                     ctx.count("hyp:positional_all_guards_of_sub_inverts" if (ko and kn and keys_nonneg(t1))
                               else "hyp:positional_outside_guards_of_sub_inverts")
-                hyp_cases.append((hyp_expr8(t1, t2, zip_, thr, conv, kn), [True, True, True, kn, ko],
-                                  dict(tag, hypotheses="indep_verified/ops_disjoint/sym_ok/keys_nonneg/korder")))
+                nc = not mutual_clash(t1, t2, cfg)
+                ctx.count("hyp:no_clash_true" if nc else "hyp:no_clash_false")
+                ctx.count("hyp:all_data_guards_of_sub_inverts_default_partial" if (ko and nc)
+                          else "hyp:outside_data_guards_of_sub_inverts_default_partial")
+                hyp_cases.append((hyp_expr8(t1, t2, zip_, thr, conv, kn), [True, True, True, kn, ko, nc],
+                                  dict(tag, hypotheses="indep_verified/ops_disjoint/sym_ok/keys_nonneg/korder/no_clash")))
             for base, res, n in corrupt_cases[:2]:
                 if not DC.in_universe(base) or not DC.in_universe(res):
                     continue
